@@ -244,6 +244,10 @@ def eval_case(case):
     n = len(kinds)
     fails = []
     r, sch = run_list(kinds, mode, threads, case.get('choices'), case.get('gate', True), hosts=hosts)
+    if r.hang and str(r.hang).startswith('wall-clock watchdog'):
+        # the program itself never came back (its threads are not waiting for the scheduler or for the network, which
+        # would have been reported as such): no target of the list got its result
+        return mkres(case, nt=True, classes=['list', 'never-finished'], fails=[['run-with-one-bad-target-never-finishes', 'targets %r mode %s threads %d: %s' % (kinds, mode, threads, r.hang)]])
     if r.hang or (sch is not None and sch.broken):
         raise RuntimeError('scheduler made no progress: %r' % (r.hang or sch.trace[-5:]))
     healthy = [k for k in kinds if k in HEALTHY]
